@@ -2,6 +2,7 @@
 from __future__ import annotations
 
 import ast
+from fractions import Fraction
 
 from .. import dag, kern
 from ..arr import Arr
@@ -213,7 +214,46 @@ def run(chk):
                    f"attributes {sorted(missing)} are assigned in __init__ but not declared in the jitclass spec", where=c.where,
                    detail=f"{len(assigned)} attributes declared")
     chk.floor("jitclasses", n_jc, 2)
+    n_special = _special_points(chk, src, njit)
+    chk.note(special_point_evaluations=n_special)
     chk.note(compiled_functions=len(njit), call_edges=n_edges, power_sites={f"{k[0]}: {k[1]}": v["n"] for k, v in sites.items()},
              files=["src/eko/", "src/ekore/"])
     chk.explanation = ("Compile-time agreement conditions between numba and plain Python over all compiled functions, plus sign "
                        "analysis of real-typed fractional powers for nf 3-6.")
+
+
+def _special_points(chk, src, njit):
+    """numba uses Python's error model for scalar float division: x / 0.0 raises ZeroDivisionError in compiled code, while the
+    interpreter - when a NumPy scalar is involved - continues with inf/nan and a warning.  A compiled function that singles out an
+    input with `if <parameter> == <constant>` tells which inputs are special: the function is partially evaluated AT that input
+    (all other arguments symbolic); if a division by an exactly vanishing denominator is executed there - typically because the
+    special case is patched after the general formula instead of guarding it - the two modes differ."""
+    n_f = n_sp = 0
+    for q, f in sorted(njit.items()):
+        params = f.params
+        specials = []
+        for n in ast.walk(f.node):
+            if isinstance(n, ast.Compare) and len(n.ops) == 1 and isinstance(n.ops[0], ast.Eq) and isinstance(n.left, ast.Name) and n.left.id in params \
+                    and isinstance(n.comparators[0], ast.Constant) and isinstance(n.comparators[0].value, (int, float)) and not isinstance(n.comparators[0].value, bool):
+                specials.append((n.left.id, Fraction(str(n.comparators[0].value))))
+        if not specials:
+            continue
+        n_f += 1
+        for pname, val in sorted(set(specials)):
+            pe = PE(src, assume=lambda text, env: None, real_is_identity=True)
+            args = [val if p == pname else dag.sym(p) for p in params]
+            inst = f"{pname}={val}"
+            n_sp += 1
+            try:
+                pe.call(q, args)
+                ok, msg = True, ""
+            except ZeroDivisionError as e:
+                ok, msg = False, str(e)
+            except Exception:
+                continue   # the function needs structured arguments: not decided here
+            chk.decide(ok, "compiled-division-at-special-points", q,
+                       f"at the input {inst}, which the function itself treats as special, a division by an exactly vanishing denominator is "
+                       f"executed ({msg}): compiled code raises ZeroDivisionError there, the interpreter continues (NumPy scalar arithmetic) "
+                       f"and the special case is patched afterwards", where=f.where, instance=inst, how="PE at the special input")
+    chk.floor("compiled functions with special-cased scalar inputs", n_f, 2)
+    return n_sp
